@@ -131,6 +131,25 @@ def pcr_cases(mns, dists, rnd, inner=(0,)):
     return cases
 
 
+def pcr_const_cases(rnd, n):
+    """label +- constant,PCR: the displacement reaches (label + constant), so the 8 / 16-bit choice has to look at the constant as well as at the span to the label -
+    distances around the 8-bit limit x constants that push the displacement over it or pull it back inside, forward and backward, with undecided PCR statements inside"""
+    cases = []
+    consts = [1, 2, 3, 5, 60, 100, 120, 124, 125, 126, 127, 128, 129, 130, 131, 135, 200, 255, 256, 300, 1000, 32767]
+    dists = [0, 1, 2, 3, 5, 60, 100, 118, 119, 120, 121, 122, 123, 124, 125, 126, 127, 128, 129, 130, 131, 135, 200, 300]
+    for _ in range(n):
+        mn, ind, d, c, op = rnd.choice(["LDA", "LEAX", "LDY", "STX", "JMP"]), rnd.random() < 0.3, rnd.choice(dists), rnd.choice(consts), rnd.choice("+-")
+        mid = [stmt("LDB", "pcr", label="I%d" % j, expr=ex(sym(rnd.choice(["T", "S0", "E"])))) for j in range(rnd.choice([0, 0, 0, 1, 2]))]
+        p = stmt(mn, "pcr", label="P", ind=ind, expr=ex(sym("T"), op, num(c, rnd.choice(["dec", "hex"]))))
+        if rnd.random() < 0.5:
+            prog = [stmt("NOP", label="S0"), p] + mid + ([filler(9, d)] if d else []) + [stmt("NOP", label="T"), stmt("NOP", label="E")]
+            cases.append(Case(prog, focus=2, tag="pcr-const-fwd"))
+        else:
+            prog = [stmt("NOP", label="S0"), (dict(filler(9, d), label="T") if d else stmt("NOP", label="T"))] + mid + [p, stmt("NOP", label="E")]
+            cases.append(Case(prog, focus=3 + len(mid), tag="pcr-const-back"))
+    return cases
+
+
 def across_org_cases(rnd, n):
     """References whose target lies across a second ORG / an ORG after code: the displacement has to follow the ADDRESSES the listing
     shows (or the program be rejected), not the sum of the statement sizes in between."""
@@ -180,6 +199,7 @@ def run(ctx):
         t, rk = asmgen.random_variant(rnd, rnd.choice(pcr))
         cases.append(asmcheck.framed(t, "pcr-numeric-random", **rk))
     asmcheck.run_suite(ctx, "pcr-numeric", cases)
+    asmcheck.run_suite(ctx, "pcr-label-plus-constant", pcr_const_cases(rnd, 40000 if thorough else 3000))
     asmcheck.run_suite(ctx, "across-org", across_org_cases(rnd, 20000 if thorough else 2000))
     ctx.cov["rule"] = ("TLC-enumerated sizing programs (fillers around the 8-bit limit x label,PCR statements with any target) replayed with the sizing-loop "
                        "hooks validated step by step against AsmSizing!Step; distance sweeps for all 38 branch mnemonics and label,PCR / [label,PCR] / "
